@@ -42,7 +42,12 @@ RULE = (
     'KerasAggregateFn around a stand-in metric (instance and factory); scenario '
     'reservoir_many (vlib/c01_scenarios.py): 20-300 tiny FixedSizeSample shards, or 3-8 '
     'shards of 1e5-3e6 samples fed as ranges, merged (left fold / balanced tree / one n-ary '
-    'merge_states) and the merged sampler fed 1-3 further batches. A violation is keyed '
+    'merge_states) and the merged sampler fed 1-3 further batches; scenario '
+    'reservoir_unequal (third audit round): 2-3 FixedSizeSample shards of pairwise different '
+    'max_size (1-32) merged into the first one, large receiver <- small operands and small '
+    'receiver <- large operands in equal shares, every fill level (fresh / partly filled / '
+    'exactly full / 2-20x the capacity reviewed; two thirds of the cases have every sampler '
+    'over-full), one sampler seed per case out of 1e6, then 1-2 further batches. A violation is keyed '
     '(mechanism) by the configuration / input class of the case and the quantity that '
     'differs, never by a value')
 ASSUMPTIONS = [
@@ -58,8 +63,12 @@ ASSUMPTIONS = [
     'value, or any other exception (broadcasting), is a violation. The older adapters '
     'without ",all-metrics" request only tn-free quantities (precision, recall, f1, threat '
     'score, ...) and keep their behaviour',
-    'binary / multiclass-indicator input never uses a vocabulary: a merge_states that '
-    'demands one (macro average) is a violation, not a refusal',
+    'binary / multiclass-indicator input never uses a vocabulary (the class positions are '
+    'fixed by the encoding: [pos_label, rest] / the columns; any dummy vocab gives the '
+    'one-batch value): a merge_states that demands one under macro average is reported '
+    '(key macro-merge-needs-vocab-for-fixed-position-encodings), it is not among the accepted '
+    'refusals; the refusal stays accepted for multiclass / multiclass-multioutput labels '
+    'without vocab, where the vocabulary is what keeps the class positions stable',
     'average=binary on multiclass labels is only generated with exactly two classes in the '
     'pool (more raise by design); which class is "positive" is not documented, so only the '
     'invariance (several batches == one batch) is demanded, never a value',
@@ -84,6 +93,15 @@ ASSUMPTIONS = [
     '(sized, sliceable, indexable: what add() uses), so membership = inside the range and '
     'at most once; that later samples are admitted with the right probability is NOT '
     'checked (only that add() keeps working and the three invariants hold)',
+    'FixedSizeSample shards of different max_size (reservoir_unequal): nothing documents '
+    'which size the merged sample has, so the weakest reading is demanded per merge step: '
+    'size = min(receiver.max_size, samples held by receiver and operand), members from the '
+    'two reservoirs, reviewed counts added, operand unchanged - or the merge rejects the '
+    'operand and leaves the receiver exactly as it was (accepted and counted; 4% of the cases '
+    'use unequal sampler seeds, which merge() refuses by design); only a raise that leaves '
+    'the receiver changed - or any raise when one side is a fresh sampler of the same seed, '
+    'the neutral element - is reported (key fixed-size-sample-merge-small-operand-into-large-'
+    'receiver when the operand has the smaller capacity and reviewed more than it holds)',
     'FrequencyState has no add(): a batch enters as merge(FrequencyState(Counter(batch), '
     'len(batch))), which is what the text metrics do',
     'TopKRetrieval with input_type=multiclass: single-character class ids as in the '
@@ -111,9 +129,12 @@ ASSUMPTIONS = [
 FAMILY_COUNTERS = ['family:' + f for f in A.EXPECTED_FAMILIES]
 REQUIRED = ['merge_checks', 'one_batch_state_checks', 'obj_api_checks', 'aggfn_api_checks', 'per_row_checks',
             'reservoir_checks', 'empty_shard_cases', 'nan_cases', 'inf_cases',
-            'no_vocab_all_metrics_cases',
+            'no_vocab_all_metrics_cases', 'macro_fixed_position_no_vocab_cases',
             'reservoir_many_states_cases', 'reservoir_many_tiny_cases',
             'reservoir_many_large_cases', 'reservoir_add_after_merge_checks',
+            'reservoir_unequal_cases', 'reservoir_unequal_large_receiver_cases',
+            'reservoir_unequal_small_receiver_cases', 'reservoir_unequal_audited_class_cases',
+            'reservoir_unequal_merge_checks',
             'inventory_classes_covered'] + FAMILY_COUNTERS
 EXHAUSTIVE = {'quick': False, 'thorough': False}
 CHUNK_TIMEOUT_S = {'quick': 240, 'thorough': 3000}
@@ -231,6 +252,8 @@ def check_case(ctx, case, reg):
   if getattr(ad, 'needs_vocab', False) and not ad.with_vocab and getattr(
       ad, 'metric_set', '') == 'all':
     ctx.count('no_vocab_all_metrics_cases')
+  if getattr(ad, 'fixed_positions_macro_no_vocab', False):
+    ctx.count('macro_fixed_position_no_vocab_cases')
   lit = {'rows': _lit(rows), 'comp': comp, 'api': mode}
 
   # ---- reference: one accumulator, one batch --------------------------------
